@@ -214,7 +214,7 @@ PROPS["C17"] = {
                    "preserved, empty-key-no-value items gone, count correct; all blocks go back through the manager. A 'huge' class builds 1-4 items of lengths around INT_MAX/6 and INT_MAX/3 "
                    "from one shared buffer: sums beyond INT_MAX must be refused, with UBSan watching the arithmetic."),
     "level_note": "Trusted: models of compose/dissect, the MMU, UBSan. The destination content after a too-large failure is not judged (the statement does not say).",
-    "quick": {"cases": 25000},
+    "quick": {"cases": 20000},
     "thorough": {"cases": 120000, "ceiling_s": 3000},
     "rule": ("lists of 1-6 items, keys/values over 1..255 from chunks (%, %41, +, space, CR, LF, CRLF, &, =, ==, #, 0x80 ...), value NULL in 1/4, empty key in 1/6; both flags, four break modes, "
              "both managers, itemCount NULL in 1/3, plain API in 1/4; 1/40 of the cases are 'huge'. Non-trivial = >= 2 items, at least one NULL/empty value or empty key or a character that "
@@ -265,7 +265,7 @@ PROPS["C15"] = {
                    "size (ASan bounds the backend block), blocks are disjoint, calloc memory is zero, realloc keeps the common prefix, overflow gives NULL+ENOMEM with the old block intact, realloc(p,0) "
                    "frees, realloc(NULL,s) allocates, backend refusal surfaces as NULL with the old block intact, backend live set == caller live set, each backend block released once with its own pointer."),
     "level_note": "Trusted: the model, ASan, my recording backend. Alignment is not asserted (not claimed by the statement).",
-    "quick": {"cases": 90000},
+    "quick": {"cases": 60000},
     "thorough": {"cases": 1000000, "ceiling_s": 3000},
     "rule": ("sequences of 1-40 ops: realloc 29%, malloc 24%, free 19%, calloc 14%, reallocarray 14%; pointer argument NULL in 1/8; fault mask on the first 40 backend requests in half of the sequences. "
              "Non-trivial = >= 3 live blocks at some point and a grow after a shrink or a backend failure during growth; distinct by sequence"
